@@ -10,6 +10,23 @@ type PropFn func(c *Ctx) int
 
 var Props = map[string]PropFn{
 	"C13": propC13,
+	"C01": propC01,
+}
+
+func propC01(c *Ctx) int {
+	maxN := 4
+	if c.Tier == "thorough" {
+		maxN = 6
+	}
+	for n := 0; n <= maxN; n++ {
+		c.RunJob(Job{Name: fmt.Sprintf("scanproject n=%d", n), Pkg: "core", Fn: "HScanProject",
+			Params: map[string]int64{"n": int64(n)}, Stubs: []string{"loc", "rune"},
+			PanicIsViolation: true, MaxPaths: 3000000, Timeout: 40 * time.Minute, MaxSteps: 200000, ReplayCap: 60000})
+	}
+	return c.Finish("model_checking", []string{
+		"bound: root file of <= N arbitrary bytes (quick N=4, thorough N=6), all 256 values per byte",
+		contractLoc, contractRune,
+	}, map[string]interface{}{})
 }
 
 const contractLoc = "jerr.NewLocation replaced by its contract (panics iff file nil / content empty / index > len; Line, Column, Quote opaque) — the contract itself is decided by check C07"
